@@ -55,4 +55,4 @@ def probe_replay(c, st):
     open(src, "w").write('<<"LEX", %s>>\n' % json.dumps(json.dumps(rec)))
     out = os.path.join(vf.WORK, "lex", "probe.json")
     vf.gv(["replay-lex", src, out])
-    c.probe("corrupted prescribed token range", json.load(open(out))["mismatches"] == 1)
+    c.probe("corrupted prescribed token range", json.load(open(out))["mismatches"] >= 1)
